@@ -37,7 +37,7 @@ package owa
 //@             && model.fractionOf(result.(model.WeightType).Weights[criterion.Id], (*params.(owaParams).Weights)[k].Weight)
 
 //@ func _sortWeightsMutate
-//@   property C03 C07 C20 C18
+//@   property C03 C07 C20 C18 C01 C04 C15
 //@   assigns *weights
 //@   ensures [same_length] len(*weights) == old(len(*weights)) && *weights == old(*weights)
 //@   ensures [ascending] forall i int, j int :: 0 <= i && i < j && j < len(*weights) ==> (*weights)[i].Weight <= (*weights)[j].Weight
@@ -72,40 +72,40 @@ package owa
 //@ spec zipsum(ws []model.WeightedCriterion, vs []float64, n int) real = n <= 0 ? 0.0 : zipsum(ws, vs, n - 1) + vs[n - 1] * ws[n - 1].Weight
 
 //@ func calculateTotalAlternativeValue
-//@   property C03 C20
+//@   property C03 C20 C01 C04 C07 C15 C18
 //@   ensures [zip_sum] result == zipsum(*sortedWeights, *sortedCriteriaWeights, len(*sortedWeights))
 //@   loop 1 invariant [partial] total == zipsum(*sortedWeights, *sortedCriteriaWeights, iter)
 
 //@ func sortAlternativeCriteriaWeights
-//@   property C03 C02 C20
+//@   property C03 C02 C20 C01 C04 C07 C15 C18
 //@   ensures [ascending] fresh(result) && fresh(*result) && forall i int, j int :: 0 <= i && i < j && j < len(*result) ==> (*result)[i] <= (*result)[j]
 //@   ensures [values_of_the_alternative] forall k int :: 0 <= k && k < len(*result) ==> (*result)[k] == 0.0 || exists key string :: key in alternative.Criteria && (*result)[k] == alternative.Criteria[key]
 //@   loop 1 invariant [ctx] fresh(tmpCriteria) && i >= 0
 //@   loop 1 invariant [filled] forall k int :: 0 <= k && k < len(tmpCriteria) ==> tmpCriteria[k] == 0.0 || exists key string :: key in alternative.Criteria && tmpCriteria[k] == alternative.Criteria[key]
 
 //@ func sortWeights
-//@   property C03 C20
+//@   property C03 C20 C01 C04 C07 C15 C18
 //@   ensures [ascending_copy] fresh(result) && fresh(*result) && len(*result) == len(*weights)
 //@             && forall i int, j int :: 0 <= i && i < j && j < len(*result) ==> (*result)[i].Weight <= (*result)[j].Weight
 //@   ensures [members] forall k int :: 0 <= k && k < len(*result) ==> exists j int :: 0 <= j && j < len(*weights) && (*result)[k] == (*weights)[j]
 //@   ensures [input_untouched] unchanged(*weights)
 
 //@ func validateSameCriteriaAndWeightsCount
-//@   property C03 C20
+//@   property C03 C20 C01 C04 C07 C15 C18
 //@   panics_iff [count_mismatch] len(alternative.Criteria) != len(*weights)
 
 // owa expects the weights already in ascending order (its only caller, OWA, sorts a copy first)
 //@ func owa
-//@   property C03 C20
+//@   property C03 C20 C01 C04 C07 C15 C18
 //@   requires [weights_ascending] forall i int, j int :: 0 <= i && i < j && j < len(*sortedWeights) ==> (*sortedWeights)[i].Weight <= (*sortedWeights)[j].Weight
 //@   ensures [single_value] result != nil && typeis(result.Evaluation, model.EvaluationSingleValue) && result.Alternative == *alternative
 //@   returnhint [ascending_weights_times_ascending_values] model.val(*result) == zipsum(*sortedWeights, *sortedAlternativeCriteriaWeights, len(*sortedWeights))
 //@             && forall i int, j int :: 0 <= i && i < j && j < len(*sortedAlternativeCriteriaWeights) ==> (*sortedAlternativeCriteriaWeights)[i] <= (*sortedAlternativeCriteriaWeights)[j]
 //@ func OWA
-//@   property C03 C20
+//@   property C03 C20 C01 C04 C07 C15 C18
 //@   ensures [single_value] result != nil && typeis(result.Evaluation, model.EvaluationSingleValue) && result.Alternative == alternative
 //@ func (*OWAPreferenceFunc).Evaluate$1
-//@   property C03 C20
+//@   property C03 C20 C15 C07 C18 C01 C04
 //@   requires weights.Weights != nil
 //@   ensures [is_owa] result != nil && typeis(result.Evaluation, model.EvaluationSingleValue) && result.Alternative == *alternative
 
@@ -154,3 +154,12 @@ package owa
 //@             && (forall i int, j int :: 0 <= i && i < j && j < len(*result) ==> (*result)[i].Id != (*result)[j].Id && (*result)[i].Weight <= (*result)[j].Weight)
 //@   ensures [importance_is_the_sum_of_values_over_the_considered_alternatives] forall k int :: 0 <= k && k < len(*result) ==> exists j int :: 0 <= j && j < len(params.Criteria) && (*result)[k].Criterion == params.Criteria[j]
 //@             && (*result)[k].Weight == old(model.cumw(params.ConsideredAlternatives, params.Criteria[j].Id, len(params.ConsideredAlternatives), model.WeightIdentity))
+
+// the method as a whole: one entry per considered alternative, ordered by value then id, links without self-reference or repeats
+//@ func (*OWAPreferenceFunc).Evaluate
+//@   property C03 C01 C04 C15 C07 C18 C20
+//@   requires [distinct] forall i int, j int :: 0 <= i && i < j && j < len(dmp.ConsideredAlternatives) ==> dmp.ConsideredAlternatives[i].Id != dmp.ConsideredAlternatives[j].Id
+//@   requires [params] typeis(dmp.MethodParameters, owaParams) && dmp.MethodParameters.(owaParams).Weights != nil
+//@   ensures [one_entry_each] result != nil && len(*result) == len(dmp.ConsideredAlternatives)
+//@   ensures [all_considered_present] forall j int :: 0 <= j && j < len(dmp.ConsideredAlternatives) ==> exists i int :: 0 <= i && i < len(*result) && (*result)[i].Alternative == dmp.ConsideredAlternatives[j]
+//@   ensures [C04 ordered_by_value_then_id] forall i int, j int :: 0 <= i && i < j && j < len(*result) ==> !model.ordered((*result)[j].AlternativeResult, (*result)[i].AlternativeResult)
